@@ -89,7 +89,7 @@ Clauses ==
        \* it reports that peptide, its stripped sequence, its score (and its target flag)
        Reports     |-> \A k \in 1..no : LET o == T.out[k]  i == RowOf(o)
                                         IN i # 0 /\ o.stripped = T.rows[i].seq /\ o.s4 = T.rows[i].s4
-                                           /\ o.tgt = T.rows[i].tgt,
+                                           /\ o.tgt = T.rows[i].label,      \* the label the table gave that row (tgt = the side owning its sequence)
        \* q-values: C01 over exactly these entries
        QExact      |-> T.mode = "e2e" =>
                          /\ known /\ Cardinality(E) = no
